@@ -35,40 +35,45 @@ from ..core import Ctx, ExtractError
 ID = "C12"
 LEVEL = "proof"
 ENGINES = ["lean-model", "pyextract", "purediff", "kopfsim"]
+STRENGTH = "partial"     # several clauses hold only under a named guard or rest on oracle/tie only (see LEVEL_TEXT)
 LEVEL_TEXT = (
     "Lean theorems for ALL fault scripts / backoff streams / delay configurations / label lists of any number of "
-    "requesters. Request loop: attempts_bound (one pass of the function under @authenticated; a 401 re-enters with a "
-    "new budget), gap_ge_backoff (every position; guard = exactly the documented override: enforce_retry_after AND a 429 "
-    "with a usable Retry-After), gap_ge_retry_after (the parsed value), gap_ge_requested (against what the server SENT: "
-    "fractions, any spelling of the header name, HTTP-date, details - no guard besides status 429), requested_rounded_up, "
-    "fractional_delay_rounded_up (F5 repaired), other_case_header_honoured (F4 repaired), retry_after_on_5xx_ignored_witness "
-    "= by design/documented), fatal_4xx_immediate, transient_retried_then_escalates, success_stops, transient_http_iff, "
-    "retry_after_http_date + http_date_delay_exact (F1 repaired), unparsable_retry_after_uses_backoff (F1/F2 repaired, any "
-    "position). Throttler: delays_follow_config (k-th consecutive error -> delays[min(k,last)] and the pause is served: "
-    "sleep2 = that delay), empty_config_never_throttles, success_resets, swallowed, scalar_delays_escape_witness, "
-    "recovers_after_errors_stop, paused_while_active, interrupted_pause_is_kept, product_projection (N objects, any "
-    "interleaving on one clock: each object's throttler and outputs = its solo run; structural - that a sleeping object "
-    "does not hold up another one's start is the D tie of concurrently running real throttlers, worker_limit=None). "
-    "Vault LTS invariants over every label list: single_reauth, reauth_possible, all_proceed_fresh, no_impossible_state, "
-    "invalid_not_reused_partial (guard: last 3 invalidations of the SAME key, SAME priority) with three negation "
-    "witnesses of the unbounded clause (finding F3: beyond history / other key / other priority). Tie: status->class "
-    "chain, >=400 guard and retry tuple extracted from the AST and proved equal; the real api.request / throttled / "
-    "Vault+authenticated+authenticator run against the models on generated scripts (differential with exact ticks; "
-    "product run of concurrent objects; trace acceptance with vault-state snapshots after every label). The structure "
-    "of the retry loop, of throttled() and of the Vault methods is tied by those runs (sampled), not by translation. "
-    "Oracle-only clauses: 'does not stop the operator' above throttled(), 'does not delay other objects' in time.")
-TIE = ("T (check_response chain + retry tuple: AST → Lean, proved equal) + D (real api.request and real throttled "
+    "requesters; STRENGTH partial. UNGUARDED: attempts_bound (one pass of the function under @authenticated), "
+    "gap_ge_backoff (guard = exactly the documented enforce_retry_after override), gap_ge_retry_after (parsed value), "
+    "requested_rounded_up, success_stops, fatal_4xx_immediate, transient_retried_then_escalates, transient_http_iff, "
+    "retry_after_http_date + http_date_delay_exact (F1 repaired), unparsable_retry_after_uses_backoff (F1/F2 repaired); "
+    "throttler: delays_follow_config (incl. the served pause), empty_config_never_throttles, success_resets, swallowed "
+    "(iterable configurations), recovers_after_errors_stop, paused_while_active, interrupted_pause_is_kept; vault LTS: "
+    "single_reauth, single_reauth_when_logins_deliver, reauth_possible, no_impossible_state. GUARDED (_partial, each with "
+    "a proved negation witness replayed from the corpus and an open finding): gap_ge_requested_partial (guard: status 429; "
+    "witness retry_after_on_5xx_ignored_witness = F7), invalid_not_reused_partial and all_proceed_fresh_partial (guard: "
+    "last 3 invalidations of the SAME key with the SAME priority; three witnesses = F3). NEGATIVE results (the clause is "
+    "false of the code; open findings): body_garbage_not_retried_witness / body_garbage_stops (F6), "
+    "body_read_failure_not_retried_witness (F9), scalar_delays_escape_witness (F8). ORACLE-ONLY clauses (no theorem with "
+    "temporal content): 'does not stop the operator or delay other objects' - checked by part C on the REAL "
+    "queueing.watcher/worker + process_resource_event (2-4 objects, failing index/event filters, scalar/empty/list "
+    "delays, worker_limit None/1/2): it FAILS in three recorded ways (F8 scalar stops the operator, F10 index-readiness "
+    "gate stuck, F11 worker_limit) and holds otherwise; the structural containment product_projection is a lemma, not "
+    "counted. 'processing recovers once errors stop' is per throttler cycle (a NEW event of the object is needed: the "
+    "failed one is dropped). Tie: status->class chain, >=400 guard and retry tuple extracted from the AST and proved "
+    "equal; the real api.request / api.get / throttled / Vault+authenticated+authenticator run against the models "
+    "(differential with exact ticks; product run of concurrent objects; trace acceptance with vault-state snapshots). The "
+    "structure of the retry loop, of throttled() and of the Vault methods is tied by those runs (sampled), not by translation.")
+TIE = ("T (check_response chain + retry tuple: AST → Lean, proved equal) + D (real api.request/api.get and real throttled "
        "under virtual time, exact tick comparison, incl. the N-object product run) + A (real Vault/authenticated/"
-       "authenticator: labelled segments accepted by the Lean LTS with equal vault state after every label)")
+       "authenticator: labelled segments accepted by the Lean LTS with equal vault state after every label); part C "
+       "(real watcher/worker/process_resource_event) is oracle-only")
 THEOREMS = [("Kopf.Props.C12", "Kopf.C12." + n) for n in [
-    "attempts_bound", "gap_ge_backoff", "gap_ge_retry_after", "gap_ge_requested", "requested_rounded_up",
-    "fractional_delay_rounded_up", "other_case_header_honoured", "retry_after_on_5xx_ignored_witness",
+    "attempts_bound", "gap_ge_backoff", "gap_ge_retry_after", "gap_ge_requested_partial", "requested_rounded_up",
+    "retry_after_on_5xx_ignored_witness",
     "fatal_4xx_immediate", "transient_retried_then_escalates", "success_stops", "transient_http_iff",
     "retry_after_http_date", "http_date_delay_exact", "unparsable_retry_after_uses_backoff",
+    "body_garbage_not_retried_witness", "body_garbage_stops", "body_read_failure_not_retried_witness",
     "delays_follow_config", "empty_config_never_throttles", "success_resets", "swallowed",
-    "scalar_delays_escape_witness", "product_projection", "recovers_after_errors_stop", "paused_while_active",
+    "scalar_delays_escape_witness", "recovers_after_errors_stop", "paused_while_active",
     "interrupted_pause_is_kept",
-    "single_reauth", "reauth_possible", "all_proceed_fresh", "invalid_not_reused_partial",
+    "single_reauth", "single_reauth_when_logins_deliver", "reauth_possible", "all_proceed_fresh_partial",
+    "invalid_not_reused_partial",
     "invalid_reused_beyond_history_witness", "invalid_reused_under_other_key_witness",
     "invalid_reused_with_other_priority_witness", "no_impossible_state",
 ]]
@@ -86,7 +91,10 @@ RULE = (
     "1-6 concurrent requesters x 1-3 calls, server-side revocation times, login scripts returning fresh / "
     "repeated-invalid / the same value with another priority / another key's credential / no credentials after a delay; "
     "distinct = the label-kind sequence. Retry-After values: integral, fractional, HTTP-date, garbage, overflow, "
-    "negative, under other spellings of the header name, fractional details. A case is non-trivial "
+    "negative, under other spellings of the header name, fractional details; error bodies: non-dict JSON, details a "
+    "string/list, retryAfterSeconds 'soon'/NaN/Infinity/[5]; Retry-After on 5xx/403 by header and details; 6% through "
+    "api.get with the body read failing. contain: 2-4 objects on the real watcher, failing index / event filters, "
+    "scalar / empty / list error_delays, worker_limit None/1/2, later events at scripted times. A case is non-trivial "
     "when it leaves the straight path (a retry, an escalation, a throttling activation, an invalidation).")
 TRUSTED = [
     "pyextract vocabulary for errors.check_response (response.status comparisons) and the except-tuple of api.request",
@@ -100,16 +108,15 @@ TRUSTED = [
     "(Kopf.Drv.C12.handle) is served by a private main (harness/props/c12.py::ask_lean)",
 ]
 ASSUMPTIONS = [
-    "Retry-After is honoured for HTTP 429 only, as documented in docs/configuration.rst; a Retry-After on 5xx/403 is ignored by the code (retry_after_on_5xx_ignored_witness) and not judged",
-    "Retry-After forms: delay-seconds are rounded UP to whole seconds (F5 fixed in e640e5e; header and details.retryAfterSeconds), found under any capitalisation of the header name (F4 fixed in aac39f2; the fake response's headers are a CIMultiDictProxy like aiohttp's), HTTP-date (F1 fixed in dee5a41, rounded up in 19d7f3b) - all judged strictly: never before what the server asked; garbage and float overflow (F2 fixed in ae1ab5d) are ignored like an absent header except that the body's retryAfterSeconds is then not consulted; F1, F2, F4, F5 witnesses stay in corpus/C12 as regression cases",
+    "nothing is exempted from the oracle on account of a theorem guard: Retry-After on 5xx/403 (F7), scalar error_delays (F8), error bodies the client does not expect (F6), body reads outside the retry loop (F9), the index-readiness gate (F10), worker_limit (F11) and re-served credentials (F3) are open findings whose signatures the oracle reports; F11 is by design of that setting",
+    "Retry-After forms on a 429: delay-seconds rounded UP (F5 fixed e640e5e), any capitalisation of the name (F4 fixed aac39f2), HTTP-date (F1 fixed dee5a41/19d7f3b), garbage and float overflow (F2 fixed ae1ab5d) ignored like an absent header except that the body's retryAfterSeconds is then not consulted - judged strictly: never before what the server asked; two Retry-After headers in one answer are not generated",
     "with settings.networking.enforce_retry_after a 429 carrying a usable Retry-After waits for the server's value even if shorter than the backoff (documented override; exactly the guard of gap_ge_backoff)",
-    "error_backoffs / error_delays are re-iterable (list, tuple, object with __iter__); a one-shot generator object is consumed across requests / shared by all objects' throttlers and is outside the model (the property quantifies over re-iterable configurations)",
-    "settings.queueing.error_delays is an Iterable as annotated; a scalar makes iter() raise TypeError out of throttled (scalar_delays_escape_witness; that escape stops the operator via queueing.watcher; modelled, not judged: misconfiguration)",
+    "error_backoffs / error_delays are re-iterable (list, tuple, object with __iter__); a one-shot generator object is consumed across requests / shared by all objects' throttlers and is outside the model (the property quantifies over re-iterable configurations); plain list/tuple configurations are one object shared by all throttlers of a case, as in the operator",
     "credentials have no expiration (Vault._expire forgets credentials without remembering them: outside the model); every populate brings newly constructed info objects (equal values allowed); login handlers do not raise (a failing login handler kills the authenticator task: see C20)",
-    "the invalid-credential history is per vault key, holds 3 items and compares value AND priority: the unbounded clause is false of the code = open finding F3 (the oracle is unbounded; F3's signature covers exactly the re-servings outside that window)",
     "wake-ups exactly at a sleep's deadline are not generated (the order of two timers due at the same instant is the loop's choice)",
-    "'does not stop the operator' is checked at throttled() only (nothing escapes for iterable configurations); 'does not delay other objects' is checked on throttlers of distinct objects running concurrently on one loop (per-object Throttler in ResourceMemory), with settings.queueing.worker_limit = None (the default): with a limit, a worker sleeping in throttled() keeps its slot and other objects wait, by design of that setting; no whole-operator run",
+    "part C runs async handlers only (no executor threads under the virtual clock), one resource kind, and does not generate worker_limit together with an index handler: there, fewer slots than listed objects dead-lock start-up with no error at all (reported to C17, not this property's clause); cases without a failing object are not judged",
     "attempts_bound bounds one pass of api.request; a 401/APISessionClosed re-enters through auth.authenticated with a full budget (api.py comment) - the composition is exercised by the vault traces only",
+    "the SSL close-notify marker is modelled on raised exceptions only (an APIError whose message echoes it is not generated)",
 ]
 
 TICK = 2.0 ** -10
@@ -1727,6 +1734,8 @@ def oracle_contain(case: dict, obs: dict) -> list[tuple[str, dict]]:
         out.append((f"the watcher (hence the operator) stopped: {obs['died']}",
                     CONTAIN_SIG["scalar"] if cause == "scalar" else {"site": "queueing.watcher", "shape": "operator-stopped"}))
         return out
+    if not bad:
+        return out        # no failing object: nothing of this property's to judge (a limit alone delays by design)
     good = {f"o{i}" for i, o in enumerate(case["objects"]) if o["kind"] == "good"}
     todo = [d for d in obs["delivered"] if d[0] in good]
     runs = list(obs["handled"])
@@ -1736,7 +1745,9 @@ def oracle_contain(case: dict, obs: dict) -> list[tuple[str, dict]]:
             runs.remove(hit)
         if hit is None or hit[1] - t > 64:
             late = "never" if hit is None else f"{hit[1] - t} ticks late"
-            sig = CONTAIN_SIG[cause] if cause in ("gate", "limit") else {"site": "processing", "shape": "healthy-object-delayed"}
+            dcause = "gate" if case["with_index"] and any(case["objects"][i]["kind"] == "bad-index" for i in bad) else \
+                "limit" if case["worker_limit"] is not None else None
+            sig = CONTAIN_SIG[dcause] if dcause else {"site": "processing", "shape": "healthy-object-delayed"}
             out.append((f"the event of healthy object {name} delivered at {t} was handled {late} while object(s) "
                         f"{['o%d' % i for i in bad]} were failing", sig))
             break
@@ -2053,7 +2064,9 @@ def _absorb(ctx: Ctx, res: dict, oracle_only: bool = False) -> None:
 
 
 def _plan(ctx: Ctx, total: int, shards: int) -> list[tuple]:
-    per = {"request": int(total * 0.5), "throttle": int(total * 0.3), "vault": total - int(total * 0.5) - int(total * 0.3)}
+    nc = max(shards, int(total * 0.03))
+    per = {"request": int(total * 0.5), "throttle": int(total * 0.28), "contain": nc,
+           "vault": total - int(total * 0.5) - int(total * 0.28) - nc}
     jobs = []
     for i in range(shards):
         counts = [(p, n // shards + (1 if i < n % shards else 0)) for p, n in per.items()]
